@@ -278,7 +278,7 @@ def key_for(case, res, spec, phase, what, target=None, err=None):
     T, K, gv = case["T"], case["K"], case["gv"]
     scalar = T["t"] not in ("list", "set", "map", "tuple", "udt")
     if what == "panic" and phase in ("dec", "rt") and has_tuple(T) and err and re.search(
-            r"reflect\.Set: value of type .* is not assignable to type", err):
+            r"reflect\.Set: value of type .* is not assignable to type|reflect\.MapOf: invalid key type", err):
         return "tuple-target-field-type-panic"
     if phase in ("enc", "rt"):
         if scalar:
@@ -417,7 +417,8 @@ def judge_vectors(ctx, recs, verdicts, stats, prop):
             ctx.violation(key_for(case, rec["res"], v["spec"], phase, dv.split("-")[1], d["K"], d.get("err")),
                           "random vector: Unmarshal(Marshal(%s %s) = %s) into %s gives %s, expected %s" % (
                               show(case), json.dumps(rec["gv"])[:160], hexs(rec["res"]["b"]), kshape(d["K"]),
-                              d["st"] + " " + json.dumps(d.get("gv"))[:160], json.dumps(v["exps"][i] if i < len(v["exps"]) else None)[:160]),
+                              d["st"] + " " + (d.get("err", "")[:200] if d["st"] != "ok" else json.dumps(d.get("gv"))[:160]),
+                              json.dumps(v["exps"][i] if i < len(v["exps"]) else None)[:160]),
                           dict(vector=rec, verdict=v))
 
 
